@@ -229,7 +229,7 @@ var c52GroupRe = regexp.MustCompile(`read group #(\d+) of (\d+) data packs \(out
 
 func streamC52(h *H) {
 	// ---------------------------------------------------------------- bucket: exhaustive in (t, n)
-	nd := h.N(40, 1600)
+	nd := h.N(40, 600)
 	for d := 0; d < nd; d++ {
 		packs := c52GenPacks(h, 48)
 		all := c52Map(packs)
@@ -259,7 +259,7 @@ func streamC52(h *H) {
 	// ---------------------------------------------------------------- pct
 	pcts := []string{"100", "99.99999", "50", "33.3", "10", "1", "0.1", "0.0001", "1e-300", "5e-324", "99.5", "100.0",
 		"NaN", "100.0000001", "101", "150", "1e9", "+Inf", "0", "-5", "-Inf", "12.5", "66.6667", "75", "25"}
-	np := h.N(1500, 40000)
+	np := h.N(1500, 20000)
 	for i := 0; i < np; i++ {
 		packs := c52GenPacks(h, 40)
 		all := c52Map(packs)
@@ -294,7 +294,7 @@ func streamC52(h *H) {
 	// note: a plain digit string is an int slice of length 1 for checkFlags and therefore rejected;
 	// sizes need a unit suffix
 	sizes := []string{"1b", "100B", "500K", "1M", "3M", "16M", "1G", "1T", "8388607T", "9223372036854775807b", "4096b", "10b", "2k"}
-	ns := h.N(800, 20000)
+	ns := h.N(800, 8000)
 	for i := 0; i < ns; i++ {
 		packs := c52GenPacks(h, 40)
 		all := c52Map(packs)
@@ -346,7 +346,7 @@ func streamC52(h *H) {
 	}
 
 	// ---------------------------------------------------------------- flags
-	nf := h.N(2500, 60000)
+	nf := h.N(2500, 30000)
 	for i := 0; i < nf; i++ {
 		s := c52GenFlag(h)
 		packs := c52GenPacks(h, 24)
